@@ -301,3 +301,16 @@ func sortKeys[K comparable](keys []K) {
 		sort.Slice(keys, func(i, j int) bool { return fmt.Sprint(keys[i]) < fmt.Sprint(keys[j]) })
 	}
 }
+
+// SendCh is the receiver-style form of a send used by the rewriter: the value is converted to the channel's
+// element type by ordinary assignability (rt.Send would require identical types for inference).
+type SendCh[T any] struct{ ch chan<- T }
+
+// To wraps the channel of a send statement.
+func To[T any](ch chan<- T) SendCh[T] { return SendCh[T]{ch: ch} }
+
+// Send is `ch <- v`.
+func (c SendCh[T]) Send(v T) { Send(c.ch, v) }
+
+// Sel adds `case ch <- v` to a select.
+func (c SendCh[T]) Sel(s *Select, v T) *Case[T] { return SelSend(s, c.ch, v) }
